@@ -14,7 +14,7 @@ import (
 func init() {
 	register("C01",
 		"that the conversion round-trips or preserves order on any date: the real new moons and terms, the day counts they give and the explicit leap overrides (LEAP_11, LEAP_12) are numeric data of the astronomy; R06.5 follows the construction of the month table on a synthetic ephemeris only.",
-		r01_1, r01_2, r01_3, r01_4, r01_5, r06_2, r08_6, r08_8, r04_2, r06_4, r06_5)
+		r01_1, r01_2, r01_3, r01_4, r01_5, r01_6, r06_2, r08_6, r08_8, r04_2, r06_4, r06_5)
 }
 
 func r01_1(c *Ctx, r *Report) {
@@ -283,7 +283,7 @@ func r01_4(c *Ctx, r *Report) {
 
 func r01_5(c *Ctx, r *Report) {
 	const rule = "R01.5"
-	r.rule(rule, "Field copies are like-to-like. In NewLunarFromSolar the lunar object's year/month/day come from the matched month and hour/minute/second from the civil date's hour/minute/second respectively; in NewLunar each field is stored from the parameter of the same meaning. A swapped sibling getter (minute for second) makes the two routes observably different.")
+	r.rule(rule, "Field copies are like-to-like. In NewLunarFromSolar the lunar object's hour/minute/second come from the civil date's hour/minute/second respectively (year, month and day: R01.6); in NewLunar each field is stored from the parameter of the same meaning. A swapped sibling getter (minute for second) makes the two routes observably different.")
 	if fn := c.Fn(r, rule, "calendar.NewLunarFromSolar"); fn != nil {
 		want := map[string]string{"Lunar.hour": "Solar.hour", "Lunar.minute": "Solar.minute", "Lunar.second": "Solar.second"}
 		got := map[string]string{}
@@ -310,31 +310,7 @@ func r01_5(c *Ctx, r *Report) {
 		}
 		sort.Strings(bad)
 		r.check(len(bad) == 0, rule, "calendar.NewLunarFromSolar copies the time of day field by field", c.fnPos(fn), strings.Join(bad, "; "))
-		// year/month/day from the matched month and the day difference
-		ymd := map[string]string{}
-		for _, b := range fn.Blocks {
-			for _, ins := range b.Instrs {
-				st, ok := ins.(*ssa.Store)
-				if !ok {
-					continue
-				}
-				fa, ok := st.Addr.(*ssa.FieldAddr)
-				if !ok {
-					continue
-				}
-				if phi, ok := st.Val.(*ssa.Phi); ok {
-					for _, e := range phi.Edges {
-						if call, ok := e.(*ssa.Call); ok && call.Common().StaticCallee() != nil {
-							ymd[fieldKeyOf(fa)] = call.Common().StaticCallee().Name()
-						}
-						if bo, ok := e.(*ssa.BinOp); ok && bo.Op == token.ADD {
-							ymd[fieldKeyOf(fa)] = "days+1"
-						}
-					}
-				}
-			}
-		}
-		r.check(ymd["Lunar.year"] == "GetYear" && ymd["Lunar.month"] == "GetMonth" && ymd["Lunar.day"] == "days+1", rule, "calendar.NewLunarFromSolar takes year and month from the matched month", c.fnPos(fn), fmt.Sprintf("year <- %s, month <- %s, day <- %s", ymd["Lunar.year"], ymd["Lunar.month"], ymd["Lunar.day"]))
+		// (year, month and day: what the search stores is decided by evaluation, R01.6)
 	}
 	if fn := c.Fn(r, rule, "calendar.NewLunar"); fn != nil {
 		want := map[string]string{}
